@@ -624,6 +624,7 @@ func main() {
 		}
 		out.Case(line, "accept", fmt.Sprintf("sessref/parked%d/pending%d", b2i(parked), pend), true)
 	}
+	extra["deb/refreshes-of-a-timer-that-survived-the-flusher's-drain-let-through"] = int(atomic.LoadInt64(&staleTimerRefreshes))
 	lap("debwaiters")
 	// 1. debouncer stop races (the defect repaired by the fix commit must not come back). Run LAST: each round
 	// left a goroutine parked on a listener nobody served any more (refreshNow after stop) on a tree without the fix
